@@ -188,3 +188,36 @@ impl MainState {
             }
 //@end
 }
+
+// ===== CONTRACT: WHOWAS (C05: no count makes the handler abort; C06: the record kept at session end can be read back) =====
+// ASSUMED stand-in for `format!("Logged in at {}", DateTime::<Utc>::from_utc(NaiveDateTime::from_timestamp(signon as i64, 0), Utc))` (chrono)
+#[verifier::external_body]
+pub fn verif_logged_in_at(signon: u64) -> (r: String) { unimplemented!() }
+impl MainState {
+//@fn state/rest_cmds.rs MainState::process_whowas unit=ison props=C05,C06 rules=R29,R1,R2
+//@replace ~|(?s)&format!\(\s*"Logged in at \{\}",\s*DateTime::<Utc>::from_utc\(.*?Utc\s*\)\s*\)| => &verif_logged_in_at(entry.signon)
+//@spec
+        requires state_wf(*old(state)), conn_ok(*old(conn_state), *old(state)),
+        ensures
+            // whatever the count: the handler completes, changes nothing and answers
+            *final(state) == *old(state), conn_same_but_stream(*final(conn_state), *old(conn_state)), // @prop C05
+            r is Ok ==> final(conn_state).stream.log().len() > old(conn_state).stream.log().len(), // @prop C05
+            // a nickname with a record: one 314 (+312) pair per entry shown, at most `count` of them, never more than there are
+            r is Ok && server is None && old(state).nick_histories@.contains_key(sk(nickname)) ==> ({
+                let h = old(state).nick_histories@[sk(nickname)]@.len();
+                let shown = if count is Some && count->0 > 0 && count->0 < h { count->0 as int } else { h as int };
+                final(conn_state).stream.log().len() == old(conn_state).stream.log().len() + 2 * shown + 1
+            }), // @prop C06
+            r is Ok && server is None && !old(state).nick_histories@.contains_key(sk(nickname)) ==>
+                final(conn_state).stream.log().len() == old(conn_state).stream.log().len() + 2, // @prop C06
+//@open
+        broadcast use group_hash_axioms, bridge;
+        let ghost l0 = conn_state.stream.log().len();
+//@loop ~while i__ < n__
+                    invariant
+                        *state == *old(state), conn_same_but_stream(*conn_state, *old(conn_state)),
+                        n__ <= hist@.len(), i__ <= n__,
+                        conn_state.stream.log().len() == l0 + 2 * i__,
+                    decreases n__ - i__,
+//@end
+}
